@@ -15,9 +15,9 @@ pub fn spec() -> Spec {
         replay,
         nshards: |t| t.pick(16, 16),
         case_cap_s: |t| t.pick(300, 7200),
-        rule: "one case per (dimension, max_size) configuration; the oracle enumerates ALL tuples of involutions with the commutation property on 1..n for every n <= max_size and reduces the connected ones to a class key (minimum BFS code over all start chambers; cross-checked against the all-permutations key for n <= 5); generator outputs must be valid, complete, connected, commuting, consecutively numbered, pairwise non-isomorphic and hit exactly the oracle's key set. Non-trivial = max_size >= 2.",
+        rule: "one case per (dimension, max_size) configuration; the oracle enumerates ALL tuples of involutions with the commutation property on 1..n for every n <= max_size and reduces the connected ones to a class key (minimum BFS code over all start chambers; cross-checked against the all-permutations key for n <= 5); generator outputs must be valid, complete, connected, commuting, consecutively numbered, pairwise non-isomorphic and hit exactly the oracle's key set. Beyond the oracle: 'large' configurations (validity, pairwise non-isomorphism, agreement with the oracle on the small sizes, closure under local moves) and 'stream' configurations (dimensions 1-7, every output valid, commuting, connected, consecutively numbered and not isomorphic to an earlier one, by fingerprints of canonical codes). Non-trivial = max_size >= 2.",
         assumptions: &[],
-        bounds: |t| json!({"dim1_max_size": t.pick(9, 10), "dim2_max_size": t.pick(7, 8), "dim3_max_size": t.pick(6, 7)}),
+        bounds: |t| json!({"dim1_max_size": t.pick(9, 10), "dim2_max_size": t.pick(7, 8), "dim3_max_size": t.pick(6, 7), "dim4_max_size": 5, "dim5_max_size": t.pick(4, 5), "large_max_size_by_dim_1_to_5": t.pick(json!([14, 11, 10, 9, 8]), json!([16, 12, 11, 10, 9])), "stream_max_size_by_dim_1_to_7": t.pick(json!([20, 15, 12, 11, 10, 9, 8]), json!([24, 17, 13, 12, 11, 10, 9]))}),
     }
 }
 
@@ -315,6 +315,84 @@ fn check_large(ctx: &mut Ctx, dim: usize, max_size: usize, chunk: usize, oracle_
     }
 }
 
+/// Still larger configurations, streamed: every output is a complete, connected D-set of the requested dimension
+/// and at most the requested size whose operations are involutions and commute when their indices differ by more
+/// than one, carries its consecutive number, and is isomorphic to no earlier output (128-bit fingerprints of the
+/// canonical BFS codes).  No completeness claim at these sizes (that is the oracle's and the closure test's part).
+fn check_stream(ctx: &mut Ctx, dim: usize, max_size: usize) {
+    use std::hash::{Hash, Hasher};
+    let case = json!({"dim": dim, "max_size": max_size, "stream": true});
+    ctx.announce(&case);
+    ctx.count(true);
+    let w = (dim * 100 + max_size) as u64 + 2000;
+    let mut seen: std::collections::HashSet<(u64, u64)> = Default::default();
+    let mut it = match ctx.guard(|| DSets::new(dim, max_size)) {
+        Ok(g) => g,
+        Err(m) => {
+            ctx.violation("panic:DSets", case, m, w);
+            return;
+        }
+    };
+    let mut k = 0usize;
+    loop {
+        let ds = match ctx.guard(|| it.next()) {
+            Ok(Some(d)) => d,
+            Ok(None) => break,
+            Err(m) => {
+                ctx.violation("panic:DSets", case.clone(), m, w);
+                return;
+            }
+        };
+        k += 1;
+        let n = ds.size();
+        let bad: Option<(&str, String)> = if ds.dim() != dim || n < 1 || n > max_size {
+            Some(("size-dim", format!("output {} has dim {} size {}", ds, ds.dim(), n)))
+        } else if ds.set_count() != k {
+            Some(("numbering", format!("output number {} carries counter {}", k, ds.set_count())))
+        } else {
+            match from_dset(&ds) {
+                None => Some(("incomplete", format!("output {} is not complete", ds))),
+                Some(s) => {
+                    if !s.is_involutive() {
+                        Some(("invalid", format!("output {}: an operation is not an involution", ds)))
+                    } else if !s.commutes() {
+                        Some(("not-commuting", format!("output {}: operations with distant indices do not commute", ds)))
+                    } else {
+                        match bfs_code(&s.ops) {
+                            None => Some(("disconnected", format!("output {} is not connected", ds))),
+                            Some(c) => {
+                                let mut h1 = std::collections::hash_map::DefaultHasher::new();
+                                c.hash(&mut h1);
+                                let mut h2 = std::collections::hash_map::DefaultHasher::new();
+                                (0x9e3779b97f4a7c15u64, &c, n).hash(&mut h2);
+                                if !seen.insert((h1.finish(), h2.finish())) {
+                                    Some(("duplicate", format!("output {} is isomorphic to an earlier output", ds)))
+                                } else {
+                                    None
+                                }
+                            }
+                        }
+                    }
+                }
+            }
+        };
+        if let Some((kind, msg)) = bad {
+            ctx.violation(kind, case.clone(), msg, w);
+            return;
+        }
+    }
+    ctx.ops(k as u64);
+    ctx.add("stream_outputs", k as i64);
+}
+
+fn stream_configs(tier: Tier) -> Vec<(usize, usize)> {
+    if tier.is_thorough() {
+        vec![(2, 17), (7, 9), (3, 13), (4, 12), (5, 11), (6, 10), (1, 24)]
+    } else {
+        vec![(2, 15), (7, 8), (4, 11), (5, 10), (3, 12), (6, 9), (1, 20)]
+    }
+}
+
 fn run(ctx: &mut Ctx) {
     let tier = ctx.tier;
     // heavy configurations first so that they land on different workers
@@ -347,6 +425,14 @@ fn run(ctx: &mut Ctx) {
             }
         }
     }
+    if ctx.nviolations() > 0 {
+        return;
+    }
+    for (dim, m) in stream_configs(tier) {
+        if ctx.take() {
+            check_stream(ctx, dim, m);
+        }
+    }
 }
 
 /// (dimension, max_size, largest size compared with the brute-force oracle)
@@ -362,6 +448,10 @@ fn large_configs(tier: Tier) -> Vec<(usize, usize, usize)> {
 fn replay(ctx: &mut Ctx, case: &Value) {
     let dim = case["dim"].as_u64().unwrap_or(2) as usize;
     let m = case["max_size"].as_u64().unwrap_or(3) as usize;
+    if case["stream"].as_bool() == Some(true) {
+        check_stream(ctx, dim, m);
+        return;
+    }
     if case["large"].as_bool() == Some(true) {
         check_large(ctx, dim, m, case["chunk"].as_u64().unwrap_or(0) as usize, 4);
         return;
